@@ -108,6 +108,8 @@ def a_new_space(m, op):
     s.bases = [sp(m, b) for b in op.get("bases") or []]
     s.formula = op.get("formula")
     parent.spaces[op["name"]] = s
+    for n, v in (op.get("refs") or {}).items():
+        s.refs[n] = rm.RRef(n, v, "auto")
 
 
 def a_del_space(m, op):
